@@ -39,6 +39,18 @@ def unwritten_x():
     return out
 
 
+def partial_readers():
+    """programs that stop reading before their input ends (what is left on standard input afterwards is observable)"""
+    X = xlib
+    out = []
+    for k in (1, 2, 3, 5, 8):
+        body = [X.ass(X.var('s'), X.num(0))] + [X.ass(X.var('s'), X.bi('+', X.var('s'), X.call('rd', []))) for _ in range(k)] + [X.putc(X.var('s')), X.exit_(X.var('s'))]
+        out.append(('rdpart:%d' % k, X.std_program(X.seq(body), main_locals=['s'])))
+    loop = X.seq([X.ass(X.var('x'), X.call('rd', [])), X.whl(X.bi('~=', X.var('x'), X.num(46)), X.seq([X.putc(X.var('x')), X.ass(X.var('x'), X.call('rd', []))])), X.exit_(X.var('x'))])
+    out.append(('rdpart:untildot', X.std_program(loop)))
+    return out
+
+
 def unwritten_asm():
     A = asmlib
     exit_with_a = [A.ref('LDBM', 'sp'), A.imm('STAI', 2), A.imm('LDAC', 0), A.opr('SVC')]
@@ -88,13 +100,17 @@ def run(tier, replay=None):
         rng = vlib.rng(12)
         base = vlib.seed() * 100000 + 20000
         nrand, nasm = (120, 60) if tier == "quick" else (2500, 800)
-        xprogs = unwritten_x() + [(i, reroute(P)) for i, P in xlib.template_programs(rng) + [('rand%d' % (base + s), xlib.random_program(base + s)) for s in range(nrand)]]
+        xprogs = unwritten_x() + [(i, reroute(P)) for i, P in partial_readers()] + [(i, reroute(P)) for i, P in xlib.template_programs(rng) + [('rand%d' % (base + s), xlib.random_program(base + s)) for s in range(nrand)]]
         xcases = xlib.make_cases(xprogs, rng)
+        for c in xcases:
+            if c['id'].startswith('rdpart:'):
+                inp = [65, 200, 66, 46, 255, 0, 67, 10, 68, 69, 70, 46, 71]
+                c['input'] = inp; c['prog'] = xlib.export(next(P for i, P in xprogs if i == c['id'].split('#')[0]), inp, "ideal", 20000)
         xres = xlib.run_cases(xexe, xcases, d, tag="c12x", flags="b")
         images = []      # (id, file bytes, input, source text or None)
         for c, r in zip(xcases, xres):
             if r['status'] in ('exit', 'limit') and 'img' in r and r['steps'] <= (20000 if tier == "quick" else 200000):
-                images.append((c['id'], struct.pack('<I', r['hdr']) + bytes(r['img']) + bytes(r['dbg']), c['input'], c['src'] if c['id'].startswith('unw:') else None))
+                images.append((c['id'], struct.pack('<I', r['hdr']) + bytes(r['img']) + bytes(r['dbg']), c['input'], c['src']))
         acases = [{'id': i, 'src': s, 'prog': p} for i, p, s in unwritten_asm()] + asmlib.random_cases(rng, nasm)
         ares = asmlib.run_cases(aexe, acases, d, tag="c12a")
         for c, r in zip(acases, ares):
@@ -157,7 +173,7 @@ def run(tier, replay=None):
         tdir = corpus.tools()
         nexe = 0
         for iid, b, inp, src in images:
-            if src is None:
+            if src is None or not iid.startswith('unw:'):
                 continue
             wd = os.path.join(d, "exe"); shutil.rmtree(wd, ignore_errors=True); os.makedirs(wd)
             open(os.path.join(wd, "p.x"), "w").write(src)
@@ -175,6 +191,35 @@ def run(tier, replay=None):
                 nexe += 1
                 so = b"".join(open(os.path.join(wd, fn), "rb").read() for fn in sorted(os.listdir(wd)) if fn.startswith("simout"))
                 history.append({'key': "exe|" + iid, 'cfg': name, 'obs': "%d:%s:%s" % (p.returncode, p.stdout.hex()[:200], so.hex()[:200])})
+        # input consumption of the EXECUTABLES: standard input is a seekable file whose offset is read back after the tool has exited (the
+        # C library leaves it at the logical read position); it must be the number of bytes HexISA consumes, with and without -t, for
+        # hexsim and for xrun
+        import subprocess
+        npos = 0
+        first_by_id = {i[0]: r0 for i, r0 in zip(images, first)}
+        readers = [(iid, b, inp, src) for iid, b, inp, src in images if first_by_id[iid]['status'] == 'exit' and 0 < first_by_id[iid]['rd'] < len(inp)]
+        readers.sort(key=lambda t: not t[0].startswith('rdpart:'))
+        for iid, b, inp, src in readers[:(25 if tier == "quick" else 400)]:
+            wd = os.path.join(d, "pos"); shutil.rmtree(wd, ignore_errors=True); os.makedirs(wd)
+            open(os.path.join(wd, "p.bin"), "wb").write(b); open(os.path.join(wd, "in.dat"), "wb").write(bytes(inp))
+            runs = [("hexsim", [os.path.join(tdir, "hexsim"), "p.bin"]), ("hexsim -t", [os.path.join(tdir, "hexsim"), "-t", "p.bin"])]
+            if src is not None:
+                open(os.path.join(wd, "p.x"), "w").write(src)
+                runs += [("xrun", [os.path.join(tdir, "xrun"), "p.x"]), ("xrun -t", [os.path.join(tdir, "xrun"), "-t", "p.x"])]
+            want = first_by_id[iid]['rd']
+            for name, argv in runs:
+                fd = os.open(os.path.join(wd, "in.dat"), os.O_RDONLY)
+                try:
+                    p = subprocess.run(argv, cwd=wd, stdin=fd, stdout=subprocess.PIPE, stderr=subprocess.PIPE, timeout=120)
+                    pos = os.lseek(fd, 0, os.SEEK_CUR)
+                finally:
+                    os.close(fd)
+                npos += 1
+                history.append({'key': "stdinpos|%s|%s" % (iid, bytes(inp).hex()), 'cfg': name, 'obs': "%d:%d" % (p.returncode, pos)})
+                if pos != want:
+                    chk.violation("input-consumed:%s" % name.replace(' ', ''), "%s on %s consumed %d bytes of its standard input (a file of %d bytes); the program reads %d"
+                                  % (name, iid, pos, len(inp), want), {"p.bin": b, "in.dat": bytes(inp)})
+        chk.set("executable_stdin_offsets_checked", npos)
         history.append({'key': history[0]['key'], 'cfg': 'canary', 'obs': 'CANARY'})
         hf = os.path.join(d, "hist.ndjson"); vlib.write_ndjson(hf, history)
         dout = vlib.tlc_fold("Determinism", "DeterminismF.cfg", [hf], heap="6g")[0][0][0]
@@ -182,9 +227,9 @@ def run(tier, replay=None):
         if dout['nbad'] - len(dbad) != 1 and len(dout['bad']) < 40:
             raise vlib.MachineryError("canary not reported by Determinism")
         for b in dbad:
-            iid = b['key'].split('|')[1] if b['key'].startswith('exe|') else b['key'].split('|')[0]
+            iid = b['key'].split('|')[1] if b['key'].startswith(('exe|', 'stdinpos|')) else b['key'].split('|')[0]
             fam = iid.split(':')[0] if ':' in iid else re.sub(r'\d+', '', iid)
-            opt = "exe" if b['key'].startswith('exe|') else "trace-not-transparent" if b['key'].endswith('transparent') else ("cut" if "|mc0|" not in b['key'] else "full") + ("+trace" if b['key'].endswith("t1") else "")
+            opt = "stdinpos" if b['key'].startswith('stdinpos|') else "exe" if b['key'].startswith('exe|') else "trace-not-transparent" if b['key'].endswith('transparent') else ("cut" if "|mc0|" not in b['key'] else "full") + ("+trace" if b['key'].endswith("t1") else "")
             chk.violation("nondeterministic:%s:%s" % (fam, opt), "same image, input and options, different result: %s under %s vs %s" % (b['key'][:80], b['cfg1'], b['cfg2']),
                           {"conflict.json": json.dumps(b)})
         can = json.loads(json.dumps(next(r for r in recs if r['obs']['status'] == 'exit' and not r['traced']))); can['id'] = 'canary'; can['obs']['ret'] += 1
@@ -209,7 +254,7 @@ def run(tier, replay=None):
                         "non-trivial = distinct keys; HexISA validation on the unperturbed third")
         chk.sample(history[0]); chk.sample({"rec": {k: v for k, v in recs[len(recs) // 2].items() if k != 'img'}})
         chk.assumptions += ["how many instructions --max-cycles N admits is not judged (mechanism); only what holds after the instructions actually executed",
-                            "input consumption of the executables is not observed (stdio buffering); the in-process harness observes it"]
+                            "input consumption of the executables is observed as the offset of a seekable standard input after exit"]
         chk.vacuity(nok < 500, "too few runs validated (%d)" % nok)
         chk.vacuity(cnt.get("traced/full:ok", 0) < 50 or cnt.get("plain/cut:ok", 0) < 200, "traced or cut runs barely exercised: %s" % dict(cnt))
     finally:
